@@ -67,6 +67,11 @@ CLAIMS["C17"] = ("bounded symbolic execution (symx) of the real NumberTree, Page
          "choice within the bound equal ISO 12.4.2 (alpha beyond 26 is a known finding); get_dest finds exactly the present keys in every tree shape with Limits and raises the not-found error otherwise; "
          "get_outlines yields every conforming forest of 4 items in pre-order with levels, terminates on any redirected Next/First pointer, and does not deepen the stack along sibling chains.",
          "4.C17")
+CLAIMS["C18"] = ("bounded symbolic execution (symx, symbolic bytes) of the real ImageWriter.export_image/_save_bmp/BMPWriter and PDFContentParser inline-image scanning",
+         "For each listed geometry (1/8/24 bits, widths 1..9, heights 1..3) and ALL sample bytes the exported BMP, decoded by a reference BMP reader, gives back exactly the stored samples, with a file length "
+         "matching its header; export_image chooses a writer without exception for every listed filter list / colour space / bit depth and writes JPEG data unchanged; for ALL inline image data of up to 4 symbolic "
+         "bytes not containing the end marker the data is captured completely and the following operators are read as without the image.",
+         "4.C18")
 NA = {}
 def main():
     props = [json.loads(l) for l in open(os.path.join(ROOT, "properties.jsonl"))]
